@@ -16,6 +16,13 @@ class AwaitableResult:
         yield
 
 
+FAILKINDS = (Fault, KeyError, AttributeError)
+
+
+def _frozen_setattr(self, name, value):
+    raise AttributeError("instances of this class are read-only")
+
+
 def make_class(W, with_lock, gsusp, state, lock_susp=0):
     locks = []
 
@@ -35,7 +42,7 @@ def make_class(W, with_lock, gsusp, state, lock_susp=0):
                 await Suspend(W)
             if state["fail_next"]:
                 state["fail_next"] = False
-                raise Fault("getter failed")
+                raise FAILKINDS[P("failkind", 0)]("getter failed")
             val = ("value", self.name, run)
             if P("aw_value", False):
                 val = AwaitableResult(val)  # the getter's value may itself be awaitable
@@ -48,7 +55,7 @@ def make_class(W, with_lock, gsusp, state, lock_susp=0):
 
         class Res:
             def __init__(self, name):
-                self.name = name
+                object.__setattr__(self, "name", name)
 
             data = A.cached_property(LockT)(getter)
 
@@ -56,7 +63,7 @@ def make_class(W, with_lock, gsusp, state, lock_susp=0):
 
         class Res:
             def __init__(self, name):
-                self.name = name
+                object.__setattr__(self, "name", name)
 
             data = A.cached_property(getter)
 
@@ -99,6 +106,8 @@ def h_hist(o0: int, o1: int, o2: int, o3: int, o4: int, o5: int, with_lock: bool
     state = {"runs": 0, "active": 0, "overlap": False, "fail_next": False, "returned": []}
     Res, locks = make_class(W, True if with_lock else False, 0, state)
     r0, r1 = Res("r0"), Res("r1")
+    if P("frozen", False):  # instances whose class refuses attribute assignment (frozen dataclass, read-only object)
+        Res.__setattr__ = _frozen_setattr
     cached = {"r0": None, "r1": None}  # reference model: the cached value per instance
     placeholders = []
     ok = True
@@ -118,7 +127,7 @@ def h_hist(o0: int, o1: int, o2: int, o3: int, o4: int, o5: int, with_lock: bool
             if state["runs"] != runs0 + 1:
                 ok = fail("cached_property:getter-run-count-wrong(%d)" % (state["runs"] - runs0), trace) and ok
             if will_fail:
-                if r[0] != "exc" or type(r[1]) is not Fault:
+                if r[0] != "exc" or type(r[1]) is not FAILKINDS[P("failkind", 0)]:
                     ok = fail("cached_property:getter-failure-not-propagated", (trace, r)) and ok
             else:
                 if r[0] != "ok" or not state["returned"] or r[1] is not state["returned"][-1]:
@@ -329,6 +338,9 @@ def jobs(tier):
         add("h_hist", L=(4 if q else 5), o0=o0)
     add("h_hist", L=3, aw_value=True)
     add("h_hist", L=3, falsy=True)
+    add("h_hist", L=3, frozen=True)
+    add("h_hist", L=3, failkind=1)
+    add("h_hist", L=3, failkind=2)
     for lock in (True, False):
         add("h_conc", T=2, GSUSP=1, lock=lock)
         add("h_conc", T=2, GSUSP=2, lock=lock)
